@@ -269,7 +269,7 @@ def build_pack(programs, log, arrays, results):
 # ---------------------------------------------------------------------------
 DEVIATIONS = {
     'real': [False],
-    'range': [(1, None), (0, 2), (1, 3), ('n0', 'n1')],
+    'range': [(1, None), (0, 2), (1, 3), ('n0', 'n1'), (0, 0), (2, 2)],
     'iterate': [(0, 1), (0, 3), (2, 3), (3, 3), (2, 5)],
     'condition': ['always', 'never', 't>0.5'],
     'pre': [True], 'post': [True], 'update_nnps': [True],
@@ -390,7 +390,7 @@ def run_pack(progs, times):
                 try:
                     ip.compute(t, dt)
                 except Exception as e:  # noqa
-                    results.append(('exception', repr(e)))
+                    results.append((-1, dict(exception=repr(e)), []))
                 res_t.append(list(results))
         out[side] = res_t
     return out
@@ -421,7 +421,12 @@ def _job(progs):
     try:
         out = run_pack(progs, times)
     except SystemExit:
-        return len(progs), [(None, 'generated code failed to compile', None)]
+        # bisect down to the programs whose generated code does not compile
+        if len(progs) == 1:
+            return 1, [(0, 'generated code failed to compile', progs[0])], 0
+        h = len(progs) // 2
+        a, b = _job(progs[:h]), _job(progs[h:])
+        return a[0] + b[0], a[1] + b[1], a[2] + b[2]
     probs = compare(progs, out)
     res = []
     for pi, what in probs:
@@ -466,7 +471,9 @@ def run(ctx):
         n += r[0]
         ndist += r[2] if len(r) > 2 else 0
         for pi, what, prog in r[1]:
-            key = 'groups:%s' % (classify(prog) if prog else 'pack')
+            key = 'groups:%s%s' % (
+                'does-not-compile:' if 'failed to compile' in what else '',
+                classify(prog) if prog else 'pack')
             if key not in viol:
                 viol[key] = (what, dict(program=prog))
     vs = [Violation(k, w, rep) for k, (w, rep) in sorted(viol.items())]
